@@ -44,7 +44,7 @@ def _shape(s):
     return (dims, den)
 
 
-def _tensor(t):
+def _tensor(t, with_name=True):
     if t is None:
         return None
     try:
@@ -54,7 +54,7 @@ def _tensor(t):
             data = bytes(t.tobytes())
     except Exception as e:  # noqa: BLE001
         data = ("unreadable", type(e).__name__)
-    return (_s(t.name), int(t.dtype), tuple(_dim(d) for d in t.shape.dims), data, _s(t.doc_string), tuple(sorted((t.metadata_props or {}).items())))
+    return (_s(t.name) if with_name else "", int(t.dtype), tuple(_dim(d) for d in t.shape.dims), data, _s(t.doc_string), tuple(sorted((t.metadata_props or {}).items())))
 
 
 class Canon:
@@ -142,7 +142,7 @@ class Canon:
         inputs = tuple((self.vid(v, declare=True), self.value_desc(v)) for v in g.inputs)
         inits = []
         for k, v in g.initializers.items():
-            inits.append((k, self.vid(v, declare=True), self.value_desc(v, v.const_value), _tensor(v.const_value)))
+            inits.append((k, self.vid(v, declare=True), self.value_desc(v, v.const_value), _tensor(v.const_value, with_name=False)))  # an initializer tensor is named by its value (a shared tensor object carries only one of the names)
         nodes = tuple(self.node(n, ir_version) for n in g)
         outputs = tuple((self.vid(v), self.value_desc(v)) for v in g.outputs)
         return (_s(g.name), inputs, tuple(inits), nodes, outputs, _s(g.doc_string), tuple(sorted(g.metadata_props.items())))
